@@ -1,8 +1,17 @@
 """Registry entry, manifest texts for C09."""
 
 ENTRY = {'parts': [{'scenario': 'scenarios.s_pool', 'chunk': 6}],
-         'quick': {'runs': 2500, 'budget': 60}, 'thorough': {'runs': 150000, 'budget': 1200}}
+         'quick': {'runs': 2500, 'budget': 55}, 'thorough': {'runs': 150000, 'budget': 1200}}
 
-TEXT = {'level': 'TODO', 'ref': 'DESIGN.md 5 (C09), 4 (S-POOL)', 'note': 'TODO'}
-
-ENABLED = False
+TEXT = {'level': 'Seeded search over exit/grow/shrink/submission histories: maxtasksperchild 1-5, memory limit with '
+          'simulated RSS, grow, shrink, crashes. Oracle: after every completed supervision pass (hook on '
+          'Pool._maintain_pool) the pool holds exactly the target number of workers with distinct slot '
+          'indices and never more un-dismissed live workers than the target at any step; per worker <= quota '
+          'results, recycle status exactly at the quota or memory limit, no 30 s guard wait at recycling, no '
+          'program executed twice, no job failed because a finished worker exited.',
+ 'note': 'Trusted: the simulated kernel (simos) models Linux semaphores, pipes, poll, process table, signals '
+         'and wait statuses faithfully (stub conformance: selftest/conformance.py); BaseProcess._bootstrap '
+         'is replaced by a replica of its exit-code mapping (checked by C19); start method is spawn-like '
+         '(pickled copy). Workers die uncatchably only inside task code or between jobs; pipes do not lose '
+         'bytes. Sampling, not proof.',
+ 'ref': 'DESIGN.md 5 (C09), 3, 4 (S-POOL)'}
